@@ -103,10 +103,14 @@ def audit(pid, tier="quick"):
     if proved and rc == 0:
         d = os.path.join(LEAN, ".lake", "audit")
         os.makedirs(d, exist_ok=True)
-        fn = os.path.join(d, f"Audit_{pid}.lean")
+        fn = os.path.join(d, f"Audit_{pid}_{os.getpid()}.lean")       # per process: concurrent runs of the same check must not share it
         with open(fn, "w") as f:
             f.write("import PrtpyProofs\n" + "".join(f"#print axioms {t['name']}\n" for t in proved))
         rc2, o2 = run(["lake", "env", "lean", fn], cwd=LEAN)
+        try:
+            os.remove(fn)
+        except OSError:
+            pass
         res["log"] += o2[-4000:] if rc2 != 0 else ""
         for m in re.finditer(r"'(\S+)' depends on axioms: \[([^\]]*)\]", o2.replace("\n", " ")):
             axioms[m.group(1)] = [a.strip() for a in m.group(2).split(",") if a.strip()]
